@@ -23,7 +23,7 @@ ASSUMPTIONS = [
 
 
 def shards(tier, seed):
-    n = 1 if tier == 'quick' else 16
+    n = 8 if tier == 'quick' else 16
     return [dict(i=i, n=n) for i in range(n)]
 
 
@@ -134,7 +134,7 @@ def check_case(sink, c, o):  # noqa: C901
 
 
 def run_shard(sink, tier, seed, shard):
-    n_trees = harness.scale(2000, 200000, tier)
+    n_trees = harness.scale(12000, 200000, tier)
     k = 5 if tier == 'quick' else 8
     opts = gen.all_opts()
     i0, step = (shard or {}).get('i', 0), (shard or {}).get('n', 1)
